@@ -980,3 +980,66 @@ def h_repairer_params(size: int, k: int, n: int, segsize: int, l1: int, l2: int)
     if seen["r1"] != ["chunk1"] or seen["r2"] != ["chunk2"]:
         return "read_encrypted does not return the chunks it read"
     return True
+
+
+# ---- 10. repair: what the uploader reports as placed is what the post-repair results count --------------------
+
+U_done = hlib.strip_logs(upload.CHKUploader._encrypted_done)
+upload.time = NS(time=lambda: 0.0)
+
+
+def h_repair_chain(k: int, g0: bool, g1: bool, g2: bool, al0: bool, al1: bool, al2: bool, pl0: bool, pl1: bool, pl2: bool) -> bool:
+    """
+    pre: 1 <= k <= 3
+    post: _ == True
+    """
+    k = _real(k, 1, 4)
+    N = 3
+    G, AL, PL = [g0, g1, g2], [al0, al1, al2], [pl0, pl1, pl2]
+    for j in range(N):
+        assume(not PL[j] or AL[j])          # a share can only be placed through a bucket that was allocated
+    good = set(j for j in range(N) if G[j])
+    assume(len(good) >= k)                  # repair runs on recoverable files
+    old, new = _Srv("old"), _Srv("new")
+    cap = _Cap(k, N)
+    pre_sm = DictOfSets()
+    for j in good:
+        pre_sm.add(j, old)
+    cr = CheckResults(cap, b"si", healthy=(len(good) == N), recoverable=True, count_happiness=0, count_shares_needed=k,
+                      count_shares_expected=N, count_shares_good=len(good), count_good_share_hosts=1, count_recoverable_versions=1,
+                      count_unrecoverable_versions=0, servers_responding=[old], sharemap=pre_sm, count_wrong_shares=0,
+                      list_corrupt_shares=[], count_corrupt_shares=0, list_incompatible_shares=[], count_incompatible_shares=0,
+                      summary="", report=[], share_problems=[], servermap=None)
+    # the repair upload: buckets allocated on the new server for AL, writers completed for PL (a writer that fails during the
+    # push is dropped by the encoder and is not in get_shares_placed())
+    placed = set(j for j in range(N) if PL[j])
+    enc = NS(get_shares_placed=lambda: set(placed), file_size=100, get_times=lambda: {}, get_uri_extension_data=lambda: {},
+             get_uri_extension_hash=lambda: b"h" * 32)
+    trackers = dict((j, NS(get_server=lambda: new)) for j in range(N) if AL[j])
+    status = NS(results=[])
+    status.set_results = lambda ur: status.results.append(ur)
+    up = NS(_encoder=enc, _server_trackers=trackers, _started=0.0, _storage_index_elapsed=0.0, _server_selection_elapsed=0.0,
+            _count_preexisting_shares=0, _upload_status=status)
+    ur = U_done(up, NS(to_string=lambda: b"URI:CHK-Verifier:x"))
+    if status.results != [ur]:
+        return "upload results not recorded"
+    crr = CheckAndRepairResults(b"si")
+    out = F_gather(NS(_verifycap=cap), ur, cr, crr)
+    post = out.post_repair_results
+    really = good | placed
+    sm = post.get_sharemap()
+    for j in range(N):
+        holders = set()
+        if j in good:
+            holders.add(old)
+        if j in placed:
+            holders.add(new)
+        if set(sm.get(j, set())) != holders:
+            return "post-repair sharemap lists share %d on %r, but it is stored on %r" % (j, sorted(map(repr, sm.get(j, set()))), sorted(map(repr, holders)))
+    if post.is_healthy() != (len(really) == N) or out.repair_successful != (len(really) == N):
+        return "repair reported healthy/successful although the shares actually written + the old good ones are not N distinct shares"
+    if post.is_recoverable() != (len(really) >= k) or post.get_share_counter_good() != len(really):
+        return "post-repair counts wrong"
+    if ur.get_pushed_shares() != len(placed):
+        return "pushed_shares is not the number of completed writers"
+    return True
